@@ -1,7 +1,7 @@
 #!/bin/sh
 # usage: tools/verify_seeded.sh <Cxx> <n>    (uses /tmp/wt/<Cxx> and /tmp/mut/<Cxx>/patch<n>.diff, demo<n>.py)
 # Confirms: patch applies to the current /repo HEAD, demo PASSes without and FAILs with it, suite passes with it.
-C=$1; N=$2; WT=/tmp/wt/$C; M=/tmp/mut/$C
+C=$1; N=$2; WT=/tmp/wt/$C; M=${MUT_DIR:-/tmp/mut}/$C
 git -C $WT checkout -q -- . 2>/dev/null; git -C $WT checkout -q --detach "$(git -C /repo rev-parse HEAD)" || exit 3
 cd $WT
 PYTHONPATH=$WT timeout 1200 /venv/bin/python $M/demo$N.py > $M/verify_demo${N}_clean.log 2>&1; a=$?
